@@ -143,6 +143,17 @@ def _unwrap_item(it):
         return gen()
     if u == "self":
         return it
+    if u == "selfpair":
+        # a cycle that branches: every step yields the item itself twice (no frame ever comes out)
+        return (it, it)
+    if u == "selfpair_list":
+        return [it, it]
+    if u == "selfpair_iter":
+        @yields_frames
+        def gen2():
+            yield it
+            yield it
+        return gen2()
     if u == "raise":
         raise ValueError("boom-%s" % it.name)
     if u == "cycle":
